@@ -56,7 +56,7 @@ class PatchError(ValueError):
     pass
 
 def apply_unified(before: str, diff: str, strict=True):
-    b = before.splitlines(keepends=True)
+    b = [x for x in re.split(r"(?<=\n)|(?<=\r)(?!\n)", before) if x]      # lines end at \n, \r\n or \r only (str.splitlines also breaks at form feeds and unicode separators, patch(1) does not)
     d = diff.split("\n")
     if d and d[-1] == "": d = d[:-1]
     i = 0
